@@ -18,6 +18,7 @@ from harness.props.c08 import dump_to_schema
 
 ID = "C17"
 TIE_MODULES = ["StathamModel.Tie"]
+PROOF_MODULES = ["StathamModel.Lemmas.AccNames"]
 from harness.props.c18 import unique_class_names  # noqa: E402
 
 ASSUMPTIONS = ["model classes have unique names within one tree (the serializers' documented assumption)", "class names are not part of equality (documented); serializations are compared with titles and $ref targets of equal classes identified"]
@@ -77,7 +78,18 @@ def mutate(rng, dump, dg):
     node = get(d, path)
     kw = node.setdefault("kw", {})
     kind = rng.choice(["num", "toggle", "literal", "lookalike", "propflag", "source", "class", "reorder-props", "reorder-enum",
-                       "description", "add-sub", "required-list"])
+                       "description", "add-sub", "required-list", "attr-rename", "class-rename"])
+    if kind == "attr-rename" and node.get("props"):
+        # another attribute name for the same JSON member (the source is made explicit first, so the JSON name stays)
+        k = rng.choice(node["props"])[0]
+        k["source"] = k.get("source") or k["name"]
+        taken = {kk["name"] for kk, _ in node["props"]}
+        fresh = next(n for n in ("renamed", "renamed2", "other_attr", "x9") if n not in taken)
+        k["name"] = fresh
+        return d, kind
+    if kind == "class-rename" and node["cls"] == "Object":
+        node["name"] = node.get("name", "C") + "Renamed"
+        return d, kind
     if kind == "num":
         name = rng.choice(["minimum", "maximum", "minLength", "maxLength", "minItems", "maxItems", "multipleOf", "minProperties"])
         if name in kw and rng.random() < 0.3:
@@ -335,6 +347,9 @@ def check_pair(drv, da, db, kind, values, out, stats, built=None, extra=None, se
         stats["driver-error"] = stats.get("driver-error", 0) + 1
         return
     out.traces_validated += 1
+    anon_same = bool(rep.pop("anon_same", False))     # hypothesis of C17_partial_congruence (same tree up to attribute and class names)
+    if anon_same:
+        stats["same-up-to-names"] = stats.get("same-up-to-names", 0) + 1
     agree = rep == real
     if not agree:
         out.disagreements.append({"what": "equality", "impl": real, "model": rep, **case})
@@ -345,6 +360,16 @@ def check_pair(drv, da, db, kind, values, out, stats, built=None, extra=None, se
         out.failures.append({"case": case, "what": "independently built copies of one schema are not equal", "finding": None})
         return
     if not real["eq"]:
+        if anon_same:
+            # not `==` (attribute names are dict keys), but the same tree up to names: C17_partial_congruence still applies
+            for v in values:
+                ra, rb = core.real_call(a, v), core.real_call(b, v)
+                if ra["r"] in ("ok", "reject") and rb["r"] in ("ok", "reject"):
+                    stats["theorem-instances-on-real-code"] = stats.get("theorem-instances-on-real-code", 0) + 1
+                    if ra["r"] != rb["r"]:
+                        out.failures.append({"case": {**case, "value": core.enc_arg(v)}, "finding": None,
+                                             "what": f"two trees that are the same up to attribute and class names disagree on a value: {ra['r']} vs {rb['r']}"})
+                        return
         return
     region = "C17-bool-number-literals" if kind in ("lookalike",) or has_bool_num_confusion(da, db) else None
     spelling = region is None and only_multipleof_spelling(da, db)
@@ -354,6 +379,13 @@ def check_pair(drv, da, db, kind, values, out, stats, built=None, extra=None, se
         stats["pairs-with-multipleOf"] = stats.get("pairs-with-multipleOf", 0) + 1
     for v in values:
         ra, rb = core.real_call(a, v), core.real_call(b, v)
+        if anon_same and ra["r"] in ("ok", "reject") and rb["r"] in ("ok", "reject"):
+            stats["theorem-instances-on-real-code"] = stats.get("theorem-instances-on-real-code", 0) + 1
+            if ra["r"] != rb["r"]:
+                # inside the hypothesis of C17_partial_congruence no region applies
+                out.failures.append({"case": {**case, "value": core.enc_arg(v)}, "finding": None,
+                                     "what": f"two trees that are the same up to attribute and class names disagree on a value: {ra['r']} vs {rb['r']}"})
+                return
         if ra["r"] in ("ok", "reject") and rb["r"] in ("ok", "reject") and ra["r"] != rb["r"]:
             if spelling:
                 # the listed finding covers the pair only where the model predicts this very disagreement
@@ -504,6 +536,12 @@ def run(ctx, scale=1.0):
                     reconfig_ops(rng, a, dg)
             except Exception:  # noqa: BLE001
                 continue
+            # properties put into the container through raw dict methods (`update`, `setdefault`, `|=`) are bound - given their
+            # JSON name - by the library at the next validation; C17 speaks of elements as built, so the comparison is made
+            # once that has happened (before it, `_Property.source` is still None and `==` tells the element from a fresh copy:
+            # recorded in DESIGN §15.8 as an observation, it is C13's and C08's territory, not equality's)
+            core.real_call(a, {})
+            stats["bound-before-comparison"] = stats.get("bound-before-comparison", 0) + 1
             dfinal = core.dump_elem(a)
             try:
                 b = dsl.build(dfinal)
